@@ -6,6 +6,7 @@ import (
 	"go/constant"
 	"go/token"
 	"go/types"
+	"sort"
 	"strings"
 
 	"golang.org/x/tools/go/ssa"
@@ -96,7 +97,7 @@ func ruleT1(c *Ctx) {
 }
 
 func itoa(n int) string {
-	return string(rune('0'+n%10))
+	return string(rune('0' + n%10))
 }
 
 // T2: header-loop bookkeeping is unconditional on every completed header.
@@ -311,6 +312,188 @@ func ruleT4(c *Ctx) {
 	c.expectMin("T4", 6)
 }
 
+// T5: line-end accounting. Where the verdict of a line-end skipper (a callee returning offset, line-end length,
+// verdict) has just been found to be end-of-header, every path from there to a return with a completing verdict
+// returns exactly that call's offset + that call's line-end length — never a guessed length — so that the next
+// header starts at the first byte of its line whatever the terminator was (CR LF, lone CR, lone LF).
+func ruleT5(c *Ctx) {
+	e := newErrAnalysis(c.Prog)
+	eoh, _ := c.namedConstInt("ErrHdrEOH")
+	mb, _ := c.namedConstInt("ErrHdrMoreBytes")
+	completing := VSet(0x1f) &^ (1 << uint(mb))
+	nTests, nPaths := 0, 0
+	for _, f := range streamingFuncs(c, e) {
+		fk := ssaKey(f)
+		ei := errResultIndex(f)
+		cnt := 0
+		if !isIntType(f.Signature.Results().At(0).Type()) {
+			continue // not an offset-returning function
+		}
+		for _, b := range f.Blocks {
+			iff, ok := b.Instrs[len(b.Instrs)-1].(*ssa.If)
+			if !ok {
+				continue
+			}
+			bo, ok := iff.Cond.(*ssa.BinOp)
+			if !ok || (bo.Op != token.EQL && bo.Op != token.NEQ) {
+				continue
+			}
+			k, isC := constIntOf(bo.Y)
+			ex, isE := bo.X.(*ssa.Extract)
+			if !isC || !isE || k != eoh {
+				continue
+			}
+			call, ok := ex.Tuple.(*ssa.Call)
+			if !ok {
+				continue
+			}
+			cal := call.Call.StaticCallee()
+			if cal == nil || cal.Signature.Results().Len() != 3 || errResultIndex(cal) != ex.Index || bufParam(cal) == nil {
+				continue
+			}
+			start := b.Succs[0]
+			if bo.Op == token.NEQ {
+				start = b.Succs[1]
+			}
+			nTests++
+			cnt++
+			key := fmt.Sprintf("%s:%s-eoh#%d", fk, cal.Name(), cnt)
+			// path-wise walk, phis resolved by the edge taken
+			type st struct {
+				b    *ssa.BasicBlock
+				prev *ssa.BasicBlock
+				env  map[*ssa.Phi]ssa.Value
+				seen map[*ssa.BasicBlock]bool
+			}
+			var resolve func(v ssa.Value, env map[*ssa.Phi]ssa.Value, out map[ssa.Value]int64, sign int64, depth int) int64
+			resolve = func(v ssa.Value, env map[*ssa.Phi]ssa.Value, out map[ssa.Value]int64, sign int64, depth int) int64 {
+				if depth > 12 {
+					out[v] += sign
+					return 0
+				}
+				switch x := v.(type) {
+				case *ssa.Phi:
+					if r, ok := env[x]; ok {
+						return resolve(r, env, out, sign, depth+1)
+					}
+				case *ssa.BinOp:
+					if x.Op == token.ADD {
+						return resolve(x.X, env, out, sign, depth+1) + resolve(x.Y, env, out, sign, depth+1)
+					}
+					if x.Op == token.SUB {
+						return resolve(x.X, env, out, sign, depth+1) + resolve(x.Y, env, out, -sign, depth+1)
+					}
+				case *ssa.Const:
+					if n, ok := constIntOf(x); ok {
+						return sign * n
+					}
+				}
+				out[v] += sign
+				return 0
+			}
+			var bad []string
+			badPos := token.NoPos
+			paths := 0
+			work := []st{{start, b, map[*ssa.Phi]ssa.Value{}, map[*ssa.BasicBlock]bool{b: true}}}
+			for len(work) > 0 && paths < 4000 {
+				cur := work[len(work)-1]
+				work = work[:len(work)-1]
+				env := cur.env
+				// phis of this block from the edge taken
+				for i, p := range cur.b.Preds {
+					if p != cur.prev {
+						continue
+					}
+					for _, ins := range cur.b.Instrs {
+						ph, ok := ins.(*ssa.Phi)
+						if !ok {
+							break
+						}
+						env[ph] = ph.Edges[i]
+					}
+					break
+				}
+				last := cur.b.Instrs[len(cur.b.Instrs)-1]
+				if ret, ok := last.(*ssa.Return); ok {
+					paths++
+					// verdict on this path
+					vv := ret.Results[ei]
+					for d := 0; d < 8; d++ {
+						ph, ok := vv.(*ssa.Phi)
+						if !ok {
+							break
+						}
+						r, ok := env[ph]
+						if !ok {
+							break
+						}
+						vv = r
+					}
+					var vs VSet
+					if kk, ok := constIntOf(vv); ok && kk >= 0 && kk < 64 {
+						vs = 1 << uint(kk)
+					} else {
+						vs = e.at(vv, cur.b)
+					}
+					if vs&completing == 0 {
+						continue
+					}
+					atoms := map[ssa.Value]int64{}
+					k0 := resolve(ret.Results[0], env, atoms, 1, 0)
+					okv := k0 == 0
+					n0, n1 := 0, 0
+					for a, cf := range atoms {
+						if cf == 0 {
+							continue
+						}
+						ax, isX := a.(*ssa.Extract)
+						switch {
+						case isX && ax.Tuple == ex.Tuple && ax.Index == 0 && cf == 1:
+							n0++
+						case isX && ax.Tuple == ex.Tuple && ax.Index == 1 && cf == 1:
+							n1++
+						default:
+							okv = false
+						}
+					}
+					if !(okv && n0 == 1 && n1 == 1) {
+						le := newLinEnv(linOpts{})
+						bad = append(bad, posStr(f, ret.Pos())+" returns "+le.pretty(le.norm(ret.Results[0])))
+						badPos = ret.Pos()
+					}
+					continue
+				}
+				for _, sb := range cur.b.Succs {
+					if cur.seen[sb] || sb.Dominates(cur.b) {
+						continue // no second visit, no back edges: the completing exits lie ahead
+					}
+					ne := map[*ssa.Phi]ssa.Value{}
+					for k2, v2 := range env {
+						ne[k2] = v2
+					}
+					ns := map[*ssa.BasicBlock]bool{}
+					for k2 := range cur.seen {
+						ns[k2] = true
+					}
+					ns[sb] = true
+					work = append(work, st{sb, cur.b, ne, ns})
+				}
+			}
+			nPaths += paths
+			sort.Strings(bad)
+			if len(bad) > 2 {
+				bad = bad[:2]
+			}
+			pos := iff.Cond.Pos()
+			if badPos.IsValid() {
+				pos = badPos
+			}
+			c.check(len(bad) == 0 && paths < 4000, "T5", key, pos, fmt.Sprintf("after %s() reported end-of-header, each of the %d paths to a completing return yields that call's offset + that call's line-end length %v", cal.Name(), paths, bad))
+		}
+	}
+	c.check(nTests >= 12, "T5", "tests", token.NoPos, fmt.Sprintf("%d end-of-header verdict tests, %d paths followed (frozen minimum 12 tests)", nTests, nPaths))
+}
+
 func init() {
 	register(&PropDef{
 		ID: "C07",
@@ -318,6 +501,7 @@ func init() {
 			{"T1", "classification is assigned on both colon paths: every entry into the body-start state stores h.Type = GetHdrType(h.Name.Get(buf)) before the value parser is chosen, and h.Type is stored nowhere else", ruleT1},
 			{"T2", "header-loop bookkeeping is unconditional: on verdict 0 of ParseHdrLine the type flag is set, the header is offered to the first-of-type table and N is incremented as top-level statements; the only conditional is the scratch-slot reset", ruleT2},
 			{"T3", "the flag word has a bit for every header type, HdrOther is the largest type, the first-of-type table has HdrOther-1 slots indexed Type-1 and keeps the first header of a type", ruleT3},
+			{"T5", "line-end accounting in every streaming caller: on every path from an end-of-header verdict of a line-end skipper (offset, line-end length, verdict) to a return with a completing verdict, the returned offset is that call's offset plus that call's line-end length (phis resolved by the edge taken), never a guessed length", ruleT5},
 			{"T4", "exact decision table of skipCRLF from byte sets at each return: CR LF advances 2, lone CR (next byte not LF) or lone LF advances 1, anything else does not advance", ruleT4},
 		},
 		Assumptions: []string{"classification table itself is C16"},
